@@ -94,78 +94,53 @@ Proof. vm_compute. repeat split. Qed.
 (* T11a: every parser decodes per its table                               *)
 (* ====================================================================== *)
 
-(* Table form, all lines: each key/value parser IS the table of the property,
-   with the code's way of cutting a record (KeyValue::parse: every colon). *)
-Theorem C11_general_is_its_table :
-  forall st line, parse_general st line = spec_general_with kv_pieces st line.
-Proof. exact parse_general_table. Qed.
-Print Assumptions C11_general_is_its_table.
-Theorem C11_editor_is_its_table :
-  forall st line, parse_editor st line = spec_editor_with kv_pieces st line.
-Proof. exact parse_editor_table. Qed.
-Print Assumptions C11_editor_is_its_table.
-Theorem C11_metadata_is_its_table :
-  forall st line, parse_metadata st line = spec_metadata_with kv_pieces st line.
-Proof. exact parse_metadata_table. Qed.
-Print Assumptions C11_metadata_is_its_table.
-Theorem C11_difficulty_is_its_table :
-  forall st line, parse_difficulty st line = spec_difficulty_with kv_pieces st line.
-Proof. exact parse_difficulty_table. Qed.
-Print Assumptions C11_difficulty_is_its_table.
-Theorem C11_colors_is_its_table :
-  forall st line, parse_colors st line = spec_colors_with kv_pieces st line.
-Proof. exact parse_colors_table. Qed.
-Print Assumptions C11_colors_is_its_table.
-
-(* Events: full, no exception. *)
+(* Full statement, all states and all lines: each parser is the table of the
+   property, with "the value is the trimmed text after the FIRST colon"
+   (record_of).  (Before the repair of D1 in /repo -- KeyValue::parse cut at
+   every colon -- these were refuted for lines with a second colon.) *)
+Theorem C11_general_decodes_per_table :
+  forall st line, parse_general st line = spec_general st line.
+Proof. exact parse_general_spec. Qed.
+Print Assumptions C11_general_decodes_per_table.
+Theorem C11_editor_decodes_per_table :
+  forall st line, parse_editor st line = spec_editor st line.
+Proof. exact parse_editor_spec. Qed.
+Print Assumptions C11_editor_decodes_per_table.
+Theorem C11_metadata_decodes_per_table :
+  forall st line, parse_metadata st line = spec_metadata st line.
+Proof. exact parse_metadata_spec. Qed.
+Print Assumptions C11_metadata_decodes_per_table.
+Theorem C11_difficulty_decodes_per_table :
+  forall st line, parse_difficulty st line = spec_difficulty st line.
+Proof. exact parse_difficulty_spec. Qed.
+Print Assumptions C11_difficulty_decodes_per_table.
+Theorem C11_colors_decodes_per_table :
+  forall st line, parse_colors st line = spec_colors st line.
+Proof. exact parse_colors_spec. Qed.
+Print Assumptions C11_colors_decodes_per_table.
 Theorem C11_events_decodes_per_table :
   forall st line, parse_events st line = spec_events st line.
 Proof. exact parse_events_spec. Qed.
 Print Assumptions C11_events_decodes_per_table.
 
-(* The property's statement is [forall st line, parse_X st line = spec_X st line]
-   with "the value is the trimmed text after the FIRST colon" (record_of).
-   It is FALSE of the code (finding D1): witnesses below.  It holds for every
-   line outside the known class "a colon after the first one". *)
-Theorem C11_metadata_first_colon_refuted :
-  exists st line, extra_colon line /\ parse_metadata st line <> spec_metadata st line.
-Proof. exact metadata_first_colon_refuted. Qed.
-Print Assumptions C11_metadata_first_colon_refuted.
-Theorem C11_general_first_colon_refuted :
-  exists st line, extra_colon (trim_comment line) /\ parse_general st line <> spec_general st line.
-Proof. exact general_first_colon_refuted. Qed.
-Theorem C11_editor_first_colon_refuted :
-  exists st line, extra_colon (trim_comment line) /\ parse_editor st line <> spec_editor st line.
-Proof. exact editor_first_colon_refuted. Qed.
-Theorem C11_difficulty_first_colon_refuted :
-  exists st line, extra_colon (trim_comment line) /\ parse_difficulty st line <> spec_difficulty st line.
-Proof. exact difficulty_first_colon_refuted. Qed.
-Theorem C11_colors_first_colon_refuted :
-  exists st line, extra_colon (trim_comment line) /\ parse_colors st line <> spec_colors st line.
-Proof. exact colors_first_colon_refuted. Qed.
+(* KeyValue::parse cuts a record exactly at the first colon *)
+Theorem C11_record_is_cut_at_first_colon :
+  forall s, kv_pieces s = record_of s.
+Proof. exact kv_pieces_record_of. Qed.
+Print Assumptions C11_record_is_cut_at_first_colon.
 
-Theorem C11_general_decodes_per_table :
-  forall st line, ~ extra_colon (trim_comment line) -> parse_general st line = spec_general st line.
-Proof. exact parse_general_spec. Qed.
-Print Assumptions C11_general_decodes_per_table.
-Theorem C11_editor_decodes_per_table :
-  forall st line, ~ extra_colon (trim_comment line) -> parse_editor st line = spec_editor st line.
-Proof. exact parse_editor_spec. Qed.
-Print Assumptions C11_editor_decodes_per_table.
-Theorem C11_metadata_decodes_per_table :
-  forall st line, ~ extra_colon line -> parse_metadata st line = spec_metadata st line.
-Proof. exact parse_metadata_spec. Qed.
-Print Assumptions C11_metadata_decodes_per_table.
-Theorem C11_difficulty_decodes_per_table :
-  forall st line, ~ extra_colon (trim_comment line) -> parse_difficulty st line = spec_difficulty st line.
-Proof. exact parse_difficulty_spec. Qed.
-Print Assumptions C11_difficulty_decodes_per_table.
-Theorem C11_colors_decodes_per_table :
-  forall st line, ~ extra_colon (trim_comment line) -> parse_colors st line = spec_colors st line.
-Proof. exact parse_colors_spec. Qed.
-Print Assumptions C11_colors_decodes_per_table.
+(* text after a second colon belongs to the value; where the value must be a
+   number or a colour it makes the record invalid *)
+Theorem C11_multi_colon_values_kept :
+  dump_metadata (fst (parse_metadata metadata_default (lit "Title:Re:Zero")))
+    = dump_metadata (set_m_title metadata_default (lit "Re:Zero")) /\
+  dump_metadata (fst (parse_metadata metadata_default (lit "Tags:a:b:c")))
+    = dump_metadata (set_m_tags metadata_default (lit "a:b:c")) /\
+  snd (parse_colors colors_default (lit "Combo1:1,2,3:4")) = Rejected /\
+  snd (parse_difficulty difficulty_default (lit "CircleSize:4:5")) = Rejected.
+Proof. exact multi_colon_values_kept. Qed.
 
-(* the key is always the trimmed text before the first colon (D1 only affects the value) *)
+(* the key is the trimmed text before the first colon *)
 Theorem C11_key_is_text_before_first_colon :
   forall s, fst (kv_pieces s) = fst (record_of s).
 Proof. exact kv_pieces_key. Qed.
@@ -471,10 +446,10 @@ Example ex_general :
             "Unknown: 5"; "PreviewTime: 2147483648"; "PreviewTime:  -2147483647 "; "AudioFilename: a\b.mp3"]
   = [7; 97; 47; 98; 46; 109; 112; 51; 0; -2147483647; 0; 100; 1060320051; 3; 0; 0; 0; 1; 0; 1; 0].
 Proof. vm_compute. reflexivity. Qed.
-(* D1 as the model computes it *)
+(* more than one colon: everything after the first one is the value *)
 Example ex_title_re_zero :
   run_dump parse_metadata dump_metadata metadata_default ["Title:Re:Zero"]
-  = [2; 82; 101; 0; 0; 0; 0; 0; 0; 0; -1; 0].
+  = [7; 82; 101; 58; 90; 101; 114; 111; 0; 0; 0; 0; 0; 0; 0; -1; 0].
 Proof. vm_compute. reflexivity. Qed.
 (* background precedence: sprite fills an empty background only; video with an
    image extension and background overwrite; video with a video extension does not *)
